@@ -165,6 +165,18 @@ def run(ctx):
     quick = ctx.tier == 'quick'
     # witness from DESIGN §2.2.2 (float centroid one ulp off an exact tie: must be inconclusive, never an alarm)
     one(ctx, 'centroid', [4, 8, 12, 20, 22, 24, 26, 30, 33, 36, 39], 0.5, 'corpus')
+    for _ in range(4 if quick else 60):
+        # LONG point lists (beyond 1024 / 4096 points, many clusters): chunked, strided, prefix-summed or capped processing
+        n = rng.choice([rng.randrange(1100, 2000), rng.randrange(4097, 5000)])
+        xs = [0.0]
+        for _i in range(n - 1):
+            xs.append(xs[-1] + (rng.choice([1, 1, 1, 2]) if rng.random() < 0.97 else rng.choice([40, 100, 400])) * 0.5)
+        kind = rng.choice(KINDS)
+        if kind in ('centroid', 'average'):
+            xs = xs[:rng.randrange(1100, 1400)]            # the exact-Q reference of these two is quadratic in the cluster size
+            one(ctx, kind, xs, rng.choice([0.002, 0.01]), 'long')
+        else:
+            one(ctx, kind, xs, rng.choice([0.002, 0.01, 0.05, 0.2]), 'long')
     for _ in range(1500 if quick else 30000):
         xs, fam = gen_xs(rng)
         u = rng.random()
